@@ -71,6 +71,8 @@ fn main() {
                     "trusted_paths_ground" => eval::replay_trusted(&v["input"]),
                     "pos_v2_hash" => eval::replay_pos(&v["input"]),
                     "datalayer_ground" => eval::replay_datalayer(&v["input"]),
+                    "datalayer_histories" => eval::replay_histories(&v["input"]),
+                    "sig_paths_ground" => eval::replay_sig_paths(&v["input"]),
                     "bls_cache_ground" => eval::replay_bls(&v["input"]),
                     "tree_hash_precomputed" => eval::replay_precomputed(&v["input"]),
                     _ => (false, "unknown eval replay".to_string()),
